@@ -44,10 +44,14 @@ func dummyParties(p *policy.Policy) uint64 {
 type site struct {
 	tag, where string
 	dummy      bool
+	raised     *bool // dummy-party configurations raise one finding per execution, not one per consequence
 }
 
-func newSite(tag, where string, p *policy.Policy) site {
-	return site{tag: tag, where: where, dummy: dummyParties(p) != 0}
+func newSite(tag, where string, p *policy.Policy, raised *bool) site {
+	if raised == nil {
+		raised = new(bool)
+	}
+	return site{tag: tag, where: where, dummy: dummyParties(p) != 0, raised: raised}
 }
 
 func (s site) sub(suffix string) site { s.where += suffix; return s }
@@ -60,6 +64,14 @@ func (s site) key(k string) string {
 }
 
 func (s site) failf(x *engine.X, key, format string, a ...any) {
+	if s.dummy {
+		if *s.raised {
+			return
+		}
+		*s.raised = true
+		x.Failf(keyCNFDummy, "%s: %s [the CNF policy has a shareholder that belongs to every maximal unqualified set; cnf.InducedMSP gives it no row, so key generation over this structure does not give every shareholder a shard]", s.where, fmt.Sprintf(format, a...))
+		return
+	}
 	x.Failf(s.key(key), "%s: %s", s.where, fmt.Sprintf(format, a...))
 }
 
